@@ -387,14 +387,30 @@ def eviction_programs():
     P['write-after-seal-before-flush'] = [T, ('ks', A), ('ks', B), ('insert', A, k1, '31'), ('rotate', A), ('insert', A, k2, '32'), ('flush',), X, ('insert', B, k1, '41'), ('rotate', B), ('insert', A, k3, '33'), ('flush',), X]
     P['reopen-with-sealed-then-evict'] = [T, ('ks', A), ('ks', B), ('insert', B, k1, '41'), ('insert', A, k1, '31'), ('rotate', A), ('flush',), ('reopen',), ('check',), X,
                                           ('insert', A, k2, '32'), ('rotate', A), ('flush',), X, ('rotate', B), ('flush',), X, ('insert', B, k2, '42'), ('rotate', A), ('flush',), X]
+    P['digit-boundary'] = digit_boundary_program()
     return P
+
+
+def digit_boundary_program():
+    # more than ten journal files at once (ids cross a decimal digit boundary: 9.jnl / 10.jnl), kept alive by a lagging keyspace; reopen, then reclaim them
+    A, B = 'a', 'b'
+    k1, k2, k3, k4, k5 = oracle.KEYS
+    X = ('crash',)
+    prog = [('threshold', 0), ('ks', A), ('ks', B), ('insert', B, k1, '41')]
+    for i in range(11):
+        prog += [('insert', A, k1, f'{0x30 + i:02x}{0x61 + i:02x}'), ('rotate', A), ('flush',)]
+    prog += [X, ('reopen',), ('check',), ('insert', A, k2, '6e6577'), ('insert', B, k2, '42'), X, ('rotate', A), ('flush',), X, ('insert', A, k3, '33'), ('reopen',), ('check',), X,
+             ('rotate', B), ('flush',), X, ('rotate', A), ('flush',), X, ('reopen',), ('check',), ('insert', A, k4, '34'), X]
+    return prog
 
 
 def native_eviction(ctx):
     last = (False, None, 'not run')
     progs = eviction_programs()
     for name, prog in progs.items():
-        v, path, d = oracle.run_program(ctx, prog, f'evict-{name}')
+        # journal files are pre-allocated, so the default journaling cap would flush the lagging keyspace after eight files: lift it where more files are wanted
+        kw = {'open_opts': 'workers=0 max_journal=100000000000'} if name == 'digit-boundary' else {}
+        v, path, d = oracle.run_program(ctx, prog, f'evict-{name}', **kw)
         if v:
             return True, path, f'program {name}: {d}'
         last = (False, path, f'{len(progs)} eviction programs: every crash image after a maintenance step recovers all acknowledged writes')
@@ -407,6 +423,12 @@ def run(ctx):
     check_seqno_map(ctx)
     check_rotate(ctx)
     check_tick(ctx)
+    # recovery re-registers sealed journals with recomputed watermarks: the same rule the eviction decision relies on after a reopen
+    from . import c04, c02
+    # ... and finds them in the order they were sealed (oldest first), the newest one being the active journal
+    c02.check_journal_order(ctx, confirm=lambda: native_eviction(ctx))
+    c04.check_sealed(ctx, confirm=lambda: native_eviction(ctx))
+    c04.check_sealed(ctx, confirm=lambda: native_eviction(ctx), shape=((1, 0), (1, 0)), tag='/two-item-batches')
     ctx.assumptions += [
         'E8: flushes of one keyspace are FIFO and get_highest_persisted_seqno is the highest seqno in its tables, so persisted >= s implies every record of that keyspace with seqno <= s is in tables',
         'C14 (checked separately): a record is applied to its memtable under the journal lock, so at sealing time get_highest_memtable_seqno >= every record of that keyspace in the sealed journal that is not yet in tables',
@@ -419,6 +441,7 @@ def run(ctx):
 
 
 MUTANTS = [
+    {'name': 'sealed recovery: watermark keeps the first seqno instead of the highest', 'edits': [('src/recovery.rs', "                    .and_modify(|prev| {\n                        prev.lsn = prev.lsn.max(batch.seqno);\n                    })\n                    .or_insert_with(|| EvictionWatermark {\n                        keyspace: handle.clone(),\n                        lsn: batch.seqno,\n                    });\n\n                match item.value_type {", "                    .or_insert_with(|| EvictionWatermark {\n                        keyspace: handle.clone(),\n                        lsn: batch.seqno,\n                    });\n\n                match item.value_type {")]},
     {'name': 'never-flushed keyspace does not block eviction', 'edits': [('src/journal/manager.rs', "                    else {\n                        return Ok(());\n                    };\n\n                    if keyspace_seqno < item.lsn {", "                    else {\n                        continue;\n                    };\n\n                    if keyspace_seqno < item.lsn {")]},
     {'name': 'watermark comparison off by one (<= lsn-1 accepted)', 'edits': [('src/journal/manager.rs', "                    if keyspace_seqno < item.lsn {\n                        log::trace!(", "                    if keyspace_seqno + 1 < item.lsn {\n                        log::trace!(")]},
     {'name': 'only the first watermark is checked', 'edits': [('src/journal/manager.rs', "            for item in &item.watermarks {\n                // Only check keyspace seqno if not deleted", "            for item in item.watermarks.iter().take(1) {\n                // Only check keyspace seqno if not deleted")]},
